@@ -101,10 +101,10 @@ def format_int(v: int, *, spec="xdsc") -> str:
         elif c == "b":
             ret.append("0b{:0>16b}".format(v))
         elif c == "c":
-            if v < 128 and chr(v).isprintable():
+            if 0 <= v < 128 and chr(v).isprintable():
                 ret.append(repr(chr(v)))
         elif c == "C":
-            if v < 128:
+            if 0 <= v < 128:
                 ret.append(repr(chr(v)))
             else:
                 ret.append("not an ASCII character")
